@@ -76,6 +76,23 @@ theorem observed_reaches_cas (c : Cfg) (sch : List Lbl) (i : Nat) (hi : i < c.k)
 
 
 
+/-- `continued`, `terminated` and `completed` are final: the winning branch continues exactly once (a flow enters
+`continued` only through `finish`, and never leaves it), a withdrawn alternative never continues -/
+theorem final_step (c : Cfg) (s : St) (l : Lbl) (i : Nat) (h : s.pc i = .continued ∨ (s.pc i).gone = true)
+    (he : enabled c s l = true) : (fire c s l).pc i = s.pc i := by
+  have hno : s.pc i ≠ .starting ∧ s.pc i ≠ .selecting ∧ s.pc i ≠ .gotAction ∧ s.pc i ≠ .inTransformer ∧
+      s.pc i ≠ .notifying := by
+    rcases h with h | h
+    · simp [h]
+    · cases hp : s.pc i <;> rw [hp] at h <;> simp [Pc.gone] at h <;> simp
+  cases l <;> simp only [enabled, Bool.and_eq_true, decide_eq_true_eq] at he <;> simp only [fire]
+  all_goals grind [upd]
+
+theorem final_absorbing (c : Cfg) (s : St) (i : Nat) (h : s.pc i = .continued ∨ (s.pc i).gone = true)
+    (sch : List Lbl) : (exec c s sch).pc i = s.pc i :=
+  exec_induct c (fun s' => s'.pc i = s.pc i)
+    (fun s' l hs he => by rw [← hs]; exact final_step c s' l i (by rw [hs]; exact h) he) sch s rfl
+
 /-! ## the winner never blocks (buffered termination channels) -/
 
 theorem notify_enabled (c : Cfg) (s : St) (h : InvA c s) (hcap : 1 ≤ c.termCap) (i t : Nat)
@@ -396,9 +413,6 @@ theorem deadlock_run1 (mr : Bool) (rc ib : Nat) (hrc : 1 ≤ rc) (hib : 1 ≤ ib
   simp [deadlockSchedBuffered, setupSched, deliverSched, run, step, enabled, fire, init, upd, delAt, List.range,
     List.range.loop, h0, h1, h2, Option.bind, Deadlocked]
 
-/-- the witness schedule of D5 for the given facts -/
-def deadlockWitness (c : Cfg) : List Lbl := if c.replyCap = 0 then deadlockSched else deadlockSchedBuffered
-
 theorem liveCount_pos (c : Cfg) (s : St) (i : Nat) (hi : i < c.k) (hl : (s.pc i).gone = false) :
     1 ≤ liveCount c s := by
   unfold liveCount
@@ -609,15 +623,18 @@ def OneWinner (c : Cfg) : Prop :=
     (∀ i, i < c.k →
       ((exec c (init c) sch).pc i = .gotAction → enabled c (exec c (init c) sch) (.enterTransformer i) = true) ∧
       ((exec c (init c) sch).pc i = .inTransformer → enabled c (exec c (init c) sch) (.cas i) = true ∧
-        ∃ w, w < c.k ∧ ((fire c (exec c (init c) sch) (.cas i)).pc w).won = true))
+        ∃ w, w < c.k ∧ ((fire c (exec c (init c) sch) (.cas i)).pc w).won = true)) ∧
+    (∀ i, ((exec c (init c) sch).pc i = .continued ∨ ((exec c (init c) sch).pc i).gone = true) →
+      ∀ sch' : List Lbl, (exec c (exec c (init c) sch) sch').pc i = (exec c (init c) sch).pc i)
 
 /-- `ebg_one_winner`: for every number of alternatives, every sequence of deliveries and every schedule at most one
 alternative's action passes the compare-and-swap; as soon as any flow is past it there is exactly one winner; a flow
-that has observed its competing event is never blocked before the compare-and-swap. Holds for every value of the
+that has observed its competing event is never blocked before the compare-and-swap; a branch that continued stays
+continued (it continues exactly once) and a withdrawn alternative never continues. Holds for every value of the
 facts. -/
 theorem ebg_one_winner (c : Cfg) : OneWinner c :=
   fun sch => ⟨fun i j => at_most_one_winner c sch i j, fun i => winner_exists c sch i,
-    fun i hi => observed_reaches_cas c sch i hi⟩
+    fun i hi => observed_reaches_cas c sch i hi, fun i h sch' => final_absorbing c _ i h sch'⟩
 
 /-- the winner is never blocked, and quiescence after an observed event means: one branch continued, everybody else
 withdrawn, wait group down to the winner -/
@@ -773,6 +790,13 @@ example : ∃ sch, (∃ i, i < 2 ∧ ((exec today (init today) sch).pc i).observ
 example : ∃ sch, (exec { today with termCap := 1 } (init { today with termCap := 1 }) sch).pc 0 = .notifying ∧
     (exec { today with termCap := 1 } (init { today with termCap := 1 }) sch).target = some 1 :=
   ⟨setupSched 2 ++ deliverSched 2 0 ++ [.node 0, .send 0, .enterTransformer 0, .cas 0, .pick 0 1], by decide, by decide⟩
+
+/-- two alternatives released into the compare-and-swap together: exactly one passes (today's facts and repaired) -/
+example : ((run today (init today) (bothInTransformerSched false)).map (fun s => (s.pc 0, s.pc 1)))
+    = some (.notifying, .completed) := by decide
+example : ((run { today with termCap := 1, mapReplaced := false, replyCap := 1 }
+      (init today) (bothInTransformerSched true)).map (fun s => (s.pc 0, s.pc 1)))
+    = some (.notifying, .completed) := by decide
 
 /-- the schedules of the counterexamples really are schedules of today's model -/
 example : (run today (init today) deadlockSched).isSome = true := by decide
